@@ -767,6 +767,8 @@ def replay(rp):
         # feature with tied values (real learner, RSS criterion; the clause is evaluated on its threshold and predictions)
         # (the uninterpreted mid-point not separating v1 from v2 is real for IEEE doubles: consecutive doubles 1, 1 + ulp, 1 + 2 ulp)
         scenarios = [['ties', rp['target'].split('_')[0]], ['ties', rp['target'].split('_')[0], 'adjacent']]
+    elif rp['target'] == 'hinge_do_split':
+        scenarios = [['split']]
     elif rp['target'] in ('acc_sort', 'tbl_score', 'tbl_score_kbest', 'tbl_score_dense'):
         # a wrong gain / score of a label set: a discrete-step table on a 2-output target whose residual sums cancel across the outputs
         scenarios = [['dstep']]
